@@ -6,6 +6,7 @@ import (
 	"errors"
 	"fmt"
 	"reflect"
+	"runtime"
 	"sync"
 	"sync/atomic"
 	"time"
@@ -67,6 +68,11 @@ type c17Case struct {
 	Rounds  int    `json:"rounds"`
 	Tokens  int    `json:"tokens"`
 	Pattern string `json:"pattern"` // interleave | atomic
+	// free
+	Mode string `json:"mode"` // t1ns | precancelled | concancel | wake
+	Via  string `json:"via"`  // acquire | handler
+	N    int    `json:"n"`
+	Hold int    `json:"hold"`
 }
 
 type semEvent struct {
@@ -350,6 +356,204 @@ script:
 	return out.Encode(&o2)
 }
 
+// -------------------------------------------------- timeouts racing with a free or freed slot
+
+// kind "free": the time-out / cancellation of a caller races with a send that can succeed.
+//   t1ns         the limiter's timeout is 1ns and it has free capacity: the select sees both
+//                branches ready
+//   precancelled the caller's context is already cancelled (limiter timeout 50ms, free capacity)
+//   concancel    the caller's context is cancelled by another goroutine while Acquire runs
+//   wake         the limiter is full, a caller is blocked in Acquire; its context is cancelled
+//                and a permit is released back to back (either order)
+// Whichever way a race goes, the executor only records, at quiescent points (no call in
+// progress), what each call returned and ConcurrentRequests().
+type freeStep struct {
+	Op    string `json:"op"` // acq | rel | inv
+	I     int    `json:"i"`
+	Err   string `json:"err,omitempty"` // acq/inv: nil | timeout | other
+	CR    int    `json:"cr"`            // ConcurrentRequests() after the step; -1 = not a quiescent point
+	Reach int    `json:"reach"`         // inv: how often the downstream handler ran
+	Msg   string `json:"msg,omitempty"`
+}
+
+type freeObs struct {
+	ID         int        `json:"id"`
+	Kind       string     `json:"kind"`
+	Steps      []freeStep `json:"steps"`
+	CREnd      int        `json:"cr_end"`
+	FreshOK    bool       `json:"fresh_ok"`
+	FreshTries int        `json:"fresh_tries"`
+	Stuck      string     `json:"stuck,omitempty"`
+}
+
+func runFree(c *c17Case, out *json.Encoder) error {
+	obs := freeObs{ID: c.ID, Kind: "free"}
+	lim := limiter.NewConcurrentLimiter(c.Max, time.Duration(c.TimeoutNs))
+	bg := context.Background()
+	next := 0
+	newID := func() int { next++; return next - 1 }
+	step := func(st freeStep) { obs.Steps = append(obs.Steps, st) }
+	held := []int{} // requests whose permit is kept until the end
+	cancelled, cancelNow := context.WithCancel(bg)
+	cancelNow()
+
+	// permits kept during the whole case (each attempt is itself an observed call)
+	for h := 0; h < c.Hold; h++ {
+		for try := 0; try < 64; try++ {
+			id := newID()
+			e, m := errClass(lim.Acquire(bg))
+			step(freeStep{Op: "acq", I: id, Err: e, CR: lim.ConcurrentRequests(), Msg: m})
+			if e == "nil" {
+				held = append(held, id)
+				break
+			}
+		}
+	}
+
+	var client *core.Client
+	reach := 0
+	if c.Via == "handler" {
+		client = core.NewClient("mock://c17")
+		client.Use(lim)
+		client.Use(core.IOHandler(func(ctx context.Context, request []byte, next core.NextIOHandler) ([]byte, error) {
+			reach++
+			return okResponse("ok"), nil
+		}))
+	}
+	one := func(ctx context.Context) {
+		id := newID()
+		if c.Via == "handler" {
+			reach = 0
+			cc := core.NewClientContext()
+			res, err := client.InvokeContext(core.WithContext(ctx, cc), "f", nil)
+			e, m := errClass(err)
+			if err == nil && !(len(res) == 1 && res[0] == "ok") {
+				e, m = "other", fmt.Sprintf("res=%v", res)
+			}
+			step(freeStep{Op: "inv", I: id, Err: e, CR: lim.ConcurrentRequests(), Reach: reach, Msg: m})
+			return
+		}
+		e, m := errClass(lim.Acquire(ctx))
+		step(freeStep{Op: "acq", I: id, Err: e, CR: lim.ConcurrentRequests(), Msg: m})
+		if e == "nil" {
+			lim.Release()
+			step(freeStep{Op: "rel", I: id, CR: lim.ConcurrentRequests()})
+		}
+	}
+
+	switch c.Mode {
+	case "t1ns":
+		for k := 0; k < c.N; k++ {
+			one(bg)
+		}
+	case "precancelled":
+		for k := 0; k < c.N; k++ {
+			one(cancelled)
+		}
+	case "concancel":
+		for k := 0; k < c.N; k++ {
+			ctx, cancel := context.WithCancel(bg)
+			go cancel()
+			for x := 0; x < (k*7)%24; x++ { // vary who gets there first
+				runtime.Gosched()
+			}
+			one(ctx)
+			cancel()
+		}
+	case "wake":
+		// fill up (limiter timeout is long, contexts are live: these sends cannot lose)
+		for lim.ConcurrentRequests() < c.Max {
+			id := newID()
+			e, m := errClass(lim.Acquire(bg))
+			step(freeStep{Op: "acq", I: id, Err: e, CR: lim.ConcurrentRequests(), Msg: m})
+			if e != "nil" {
+				obs.Stuck = "could not fill the limiter"
+				break
+			}
+			held = append(held, id)
+		}
+		for k := 0; k < c.N && obs.Stuck == "" && len(held) > 0; k++ {
+			ctx, cancel := context.WithCancel(bg)
+			id := newID()
+			res := make(chan error, 1)
+			go func() { res <- lim.Acquire(ctx) }()
+			time.Sleep(150 * time.Microsecond) // let it block on the full channel
+			h := held[0]
+			held = held[1:]
+			if k%2 == 0 {
+				lim.Release()
+				cancel()
+			} else {
+				cancel()
+				lim.Release()
+			}
+			var err error
+			select {
+			case err = <-res:
+			case <-time.After(3 * time.Second):
+				obs.Stuck = fmt.Sprintf("blocked caller %d returned neither after the release nor after the cancellation", id)
+			}
+			cancel()
+			if obs.Stuck != "" {
+				break
+			}
+			e, m := errClass(err)
+			step(freeStep{Op: "rel", I: h, CR: -1})
+			step(freeStep{Op: "acq", I: id, Err: e, CR: lim.ConcurrentRequests(), Msg: m})
+			if e == "nil" {
+				held = append(held, id)
+			}
+			// refill so that the next caller blocks again
+			for try := 0; lim.ConcurrentRequests() < c.Max && try < 4; try++ {
+				rid := newID()
+				e2, m2 := errClass(lim.Acquire(bg))
+				step(freeStep{Op: "acq", I: rid, Err: e2, CR: lim.ConcurrentRequests(), Msg: m2})
+				if e2 == "nil" {
+					held = append(held, rid)
+				}
+			}
+		}
+	default:
+		return fmt.Errorf("c17: unknown free mode %q", c.Mode)
+	}
+	// give back what this case itself kept
+	for _, id := range held {
+		if lim.ConcurrentRequests() == 0 {
+			break // nothing to receive: Release would block for ever
+		}
+		lim.Release()
+		step(freeStep{Op: "rel", I: id, CR: lim.ConcurrentRequests()})
+	}
+	obs.CREnd = lim.ConcurrentRequests()
+	// a fresh request must get in (with a 1ns timeout the select may legitimately pick the
+	// timer, so try a number of times; with no free slot none of them can succeed)
+	// (with a longer timeout a free slot wins at once; a full channel would make every try
+	// last the whole timeout, so those get one try under a 100ms watchdog)
+	maxTries := 400
+	if c.TimeoutNs > 1000 {
+		maxTries = 1
+	}
+	for obs.FreshTries < maxTries && !obs.FreshOK {
+		obs.FreshTries++
+		got := make(chan error, 1)
+		go func() { got <- lim.Acquire(bg) }()
+		select {
+		case err := <-got:
+			if err == nil {
+				obs.FreshOK = true
+				lim.Release()
+			}
+		case <-time.After(100 * time.Millisecond):
+			go func() { // abandoned: give the permit back should it ever get one
+				if <-got == nil {
+					lim.Release()
+				}
+			}()
+		}
+	}
+	return out.Encode(&obs)
+}
+
 // ---------------------------------------------------------------------------- rate limiter
 
 // readNext reads the unexported field RateLimiter.next (read-only, atomic).
@@ -489,6 +693,8 @@ func c17Run(line []byte, out *json.Encoder) error {
 	switch c.Kind {
 	case "sem":
 		return runSem(&c, out)
+	case "free":
+		return runFree(&c, out)
 	case "rate", "plug":
 		return runRate(&c, out)
 	case "conc":
